@@ -10,6 +10,31 @@ E3 = 'TLC model checking of a TLA+ model generated from the documented tables, w
 
 # pid -> (engine, technique, level text, note, design_ref)
 CHECKS = {
+    'C18': ('E1', E1 + ' (complete enumeration of a seed range)',
+            'Seeds 0..63/0..511 x frames (4x4, 3x5, 16x16) x levels (0, 1/2, 3, 50, 1e4) x 6 seeded models (Poisson and Gaussian shot '
+            'noise, read noise, dark current with FPN, rule-07 dark current, PSD surface error): same seed gives identical draws under '
+            'two different global RNG states, the global state is not advanced, all enumerated seeds give distinct draws, support '
+            '(non-negative integers, rejections), moments aggregated over all enumerated seeds within 6 sigma, dark without FPN = '
+            'floor(rate), PSD zero off-mask with exactly the requested RMS on square and non-square masks; cosmic_rays for every '
+            'enumerated global seed x shapes x pixel sizes x integration times: shape, finite, non-negative.',
+            'Limit: every seed / every random state is decided for the enumerated range only; moment claims are bounded sample statistics.',
+            'DESIGN.md section 4 C18'),
+    'C19': ('E1', E1,
+            'Images of 6/9 shapes (even, odd, non-square) x dense/smooth payloads and every unit impulse x extents x smear angles: '
+            'output shape, non-negativity, identity at zero extent, commutation with every circular translation of the torus, '
+            'agreement with the circular convolution with the analytic transfer function (explicit double-sum DFT, not numpy.fft) '
+            'wherever that convolution is non-negative and within the bound contributed by the unpaired Nyquist bins, totals, and '
+            'equivalence of physical units (scale*p, p, o) with (scale*o, 1, 1).',
+            'Trusted: numpy; smear direction (cos a, sin a) in (column, row).',
+            'DESIGN.md section 4 C19'),
+    'C20': ('E1', E1,
+            'pad for every (n0,n1) in 1..6/7 to every (S0,S1) in 1..7/8, 2-D and cubes of depth 1-3 with unique cell ids against index '
+            'arithmetic (origin floor(n/2)), grow-then-crop identity, window(); boundary, boundary_slice(pad), slice_offset, subarray '
+            'and centroid for all 511 subsets of a 3x3 stencil at every placement; subarray for every size and shift; rebin block '
+            'sums; drawn shapes on even/odd/non-square arrays (range, binary, half-turn, mirrors, exact integer translation); '
+            'hex_segments for rings 1-3 x gaps {0,1/2,1,2.5} x rotate x radii x drop sets (count, area, non-overlap, border).',
+            'Trusted: numpy; hexagon radii avoid pixel centres exactly on a vertex; gap-0 shared-edge overlap is a recorded known finding.',
+            'DESIGN.md section 4 C20'),
     'C16': ('E1', E1,
             'collect_charge on cubes of 1-3 slices with every unit impulse (complete by linearity) and a dense payload for scalar, '
             'vector and Spectrum efficiencies in 4 units x wavelengths in 4 units; Bayer collection for every square pattern over '
